@@ -428,7 +428,52 @@ def units(root):
             Unit("parameter constraint costs", u_constraints), Unit("XYFit x->y projection", u_projection), Unit("total = model + data graph nodes", u_total_lambdas),
             Unit("error change reaches the cost (callback wiring, implicit chi2 switch)", u_error_change), Unit("pointwise_version keeps the cost", u_pointwise_version),
             Unit("is_diagonal is exact (the pointwise cost is chosen only for a truly diagonal covariance; shared with C15)", _shared_is_diagonal),
-            Unit("declared constraints reach the constraint objects unchanged (value, uncertainty, relative flag, indices; shared with C03)", _shared_constraints)]
+            Unit("declared constraints reach the constraint objects unchanged (value, uncertainty, relative flag, indices; shared with C03)", _shared_constraints),
+            Unit("xy cost functions: which graph nodes they read (both axes by default)", u_xy_cost_names),
+            Unit("a declared source contributes (sigma sigma^T) o rho with the SIGNED relative reference: SimpleGaussianError caches (shared with C02)", _shared_source_cov),
+            Unit("SimpleGaussianError._calculate_cov_mat_generic (shared with C02)", _shared_source_generic)]
+
+
+def u_xy_cost_names(root):
+    """the xy cost functions read the uncertainties of BOTH axes unless told otherwise: with axes_to_use = 'xy' (the default) the cost arguments are the projected totals
+    (total_error / total_cov_mat...), with 'y' the y-only ones; any other value is refused.  'x-uncertainties projected onto y' rests on this choice of graph nodes."""
+    fields = ("_DATA_NAME", "_MODEL_NAME", "_ERROR_NAME", "_COV_MAT_CHOLESKY_NAME", "_COV_MAT_QR_NAME", "_COV_MAT_NAME")
+    sch = {c_: {f_: PYOBJ for f_ in fields} for c_ in ("XYCostFunction_Chi2", "XYCostFunction_NegLogLikelihood", "XYCostFunction_GaussApproximation")}
+    eng = engine(root, ["kafe2/fit/xy/cost.py", "kafe2/fit/_base/cost.py"], sch, [])
+    for base in ("CostFunction_Chi2", "CostFunction_NegLogLikelihood", "CostFunction_GaussApproximation"):
+        mk(eng, base, "__init__", result=lambda vw: VNone())
+    want = {"XYCostFunction_Chi2": {"xy": {"_ERROR_NAME": "total_error", "_COV_MAT_CHOLESKY_NAME": "total_cov_mat_cholesky", "_COV_MAT_QR_NAME": "total_cov_mat_qr"},
+                                    "y": {"_ERROR_NAME": "y_total_error", "_COV_MAT_CHOLESKY_NAME": "y_total_cov_mat_cholesky", "_COV_MAT_QR_NAME": "y_total_cov_mat_qr"}},
+            "XYCostFunction_NegLogLikelihood": {"xy": {"_ERROR_NAME": "total_error"}, "y": {"_ERROR_NAME": "y_total_error"}},
+            "XYCostFunction_GaussApproximation": {"xy": {"_ERROR_NAME": "total_error", "_COV_MAT_CHOLESKY_NAME": "total_cov_mat_cholesky", "_COV_MAT_NAME": "total_cov_mat"},
+                                                  "y": {"_ERROR_NAME": "y_total_error", "_COV_MAT_CHOLESKY_NAME": "y_total_cov_mat_cholesky", "_COV_MAT_NAME": "y_total_cov_mat"}}}
+    for cls in want:
+        for given in (None, "xy", "XY", "y", "Y", "yx", "x"):
+            c = Contract(cls, "__init__")
+
+            def post(vw, cls=cls, given=given):
+                key = "xy" if given is None else given.lower()
+                if key not in ("xy", "y"):
+                    return [("any other axis selection is refused", z3.BoolVal(vw.flow == "raise" and vw.exc == "ValueError"))]
+                if vw.flow == "raise":
+                    return [("accepted", z3.BoolVal(False))]
+                got = {f_: vw.f(vw.post, vw.self, f_) for f_ in list(want[cls][key]) + ["_DATA_NAME", "_MODEL_NAME"]}
+                exp = dict(want[cls][key], _DATA_NAME="y_data", _MODEL_NAME="y_model")
+                return [(f"axes_to_use = {given if given is not None else 'default'}: data / model are the y values, the uncertainties are the {'totals of both axes projected onto y' if key == 'xy' else 'y-only totals'}",
+                         z3.BoolVal(all(isinstance(got[f_], VStr) and got[f_].s == exp[f_] for f_ in exp)))]
+            c.ensures.append(post)
+            eng.verify(cls, "__init__", None, lambda e, st, me_, given=given: ({} if given is None else {"axes_to_use": VStr(given)}), contract=c, tag=f"[axes_to_use={given}]")
+    return eng
+
+
+def _shared_source_cov(root):
+    from . import c02
+    return c02.u_source(root)
+
+
+def _shared_source_generic(root):
+    from . import c02
+    return c02.u_generic(root)
 
 
 def _shared_constraints(root):
